@@ -78,6 +78,12 @@ def inputs(chk):
         h = bytes(rng.choice(b"0123456789abcdef") for _ in range(rng.choice([32, 40, 64, 128])))
         line = rng.choice([h + b" 12 name", b"name " + h, h + b" x name", h, b"", h + b" 1 2 3", h + b" 99999999999999999999 n", b" " + h + b"\t5\tn "])
         out.append(("hparsed", [rng.choice([b"md5", b"sha1", b"sha256", b"sha512"])], line))
+    # the same parsers entered with the CALLER's *bufio.Reader, which is used again afterwards (clbufio, rbufio)
+    for op, pre, t in list(out):
+        if op == "clparse" and len(t) < 6000 and rng.random() < 0.5:
+            out.append(("clbufio", [], t))
+        elif op == "rall" and len(t) < 6000 and rng.random() < 0.15:
+            out.append(("rbufio", [], t))
     keep = []
     for op, pre, t in out:
         if True:
@@ -89,15 +95,17 @@ def inputs(chk):
 def run(chk):
     ins = inputs(chk)
     icases, mcases = [], []
-    cl_texts = [t for op, _, t in ins if op == "clparse"]
+    cl_texts = [t for op, _, t in ins if op in ("clparse", "clbufio")]
     cl_m = iter(with_oracle(chk, cl_texts)[0])
     for op, pre, t in ins:
         if op == "hparsed":
             icases.append((op, pre + [t, b""])); mcases.append((op, pre + [t, b""]))
         elif op == "tdoc":
             icases.append((op, pre + [t])); mcases.append(("cunmarshal", pre + [t]))
-        elif op == "clparse":
+        elif op in ("clparse", "clbufio"):
             icases.append((op, [t])); mcases.append(next(cl_m))
+        elif op == "rbufio":
+            icases.append((op, [t])); mcases.append(("rall", [t]))
         else:
             icases.append((op, pre + [t])); mcases.append((op, pre + [t]))
     impl = chk.run_impl(icases, timeout=1800)
